@@ -219,10 +219,87 @@ def run_per_call(ctx, FST, n_seq):
                 FST.set_options(**dict((k, eval(v)) for k, v in before))
 
 
+def probe(FST):
+    """Results that depend only on the thread's default options (nothing passed per call)."""
+    out = []
+    for src, fn in (('r = (w := 1), 2\n', lambda t: t.body[0].value.elts[0].copy().src), ('# lead\ns = 1  # trail\n\n# post\nq\n', lambda t: t.body[0].copy().src),
+                    ('call(*not a, b)\n', lambda t: t.body[0].value.get_slice(0, 2, 'args').src), ('x = (a + b)\n', lambda t: t.body[0].value.copy().src),
+                    ('def f():\n    """d\n    e"""\n', lambda t: t.body[0].copy().src), ('if a:\n    pass\nelse:\n    if b: pass\n', lambda t: (t.body[0].orelse[0].body[0].remove(), t.src)[1])):
+        try:
+            out.append(fn(FST(src, 'exec')))
+        except Exception as e:
+            out.append('exc:' + type(e).__name__)
+    return tuple(out)
+
+
+def run_api_isolation(ctx, FST, n):
+    """Public calls that manage options internally (reconcile pins its own, coercion/sub forward per-call options): the thread defaults and
+    the behaviour they drive must be the same after the call as before it - on return and on raise, under non-default ambient defaults."""
+    import ast as ast_
+    import fst.match as M
+    defaults = dict(FST.get_options())
+    valid = {k: v for k, v in VALID.items() if k in defaults}
+    for _ in range(n):
+        amb = {k: ctx.rnd.choice(v) for k, v in valid.items() if ctx.rnd.random() < 0.4 and k not in ('raw',)}
+        try:
+            FST.set_options(**amb)
+        except Exception:
+            FST.set_options(**defaults)
+            continue
+        before, pb = freeze(FST.get_options()), probe(FST)
+        kind = ctx.rnd.choice(['reconcile-ok', 'reconcile-fail-stmt-in-expr', 'reconcile-fail-bad-node', 'sub', 'sub-fail', 'as-ok', 'as-fail', 'parse-fail', 'put-fail', 'docstr', 'search'])
+        out = 'returned'
+        try:
+            if kind.startswith('reconcile'):
+                root = FST('x = [a, b, c]\ndef f(p):\n    return p * (q + 1)\n', 'exec')
+                root.mark()
+                lst = root.a.body[0].value
+                if kind == 'reconcile-ok':
+                    lst.elts.append(ast_.BinOp(left=ast_.Name(id='n', ctx=ast_.Load()), op=ast_.Add(), right=ast_.Constant(value=1)))
+                    root.a.body[1].body[0].value.left = ast_.BoolOp(op=ast_.Or(), values=[ast_.Name(id='u', ctx=ast_.Load()), ast_.Name(id='v', ctx=ast_.Load())])
+                elif kind == 'reconcile-fail-stmt-in-expr':
+                    lst.elts[ctx.rnd.randrange(3)] = ast_.Pass()
+                else:
+                    root.a.body[1].body[0].value.right = ctx.rnd.choice([ast_.arguments(posonlyargs=[], args=[], kwonlyargs=[], kw_defaults=[], defaults=[]), ast_.Return(value=None), ast_.alias(name='zz')])
+                root.reconcile()
+            elif kind == 'sub':
+                FST('a = f(b) + c\n', 'exec').sub(M.MName(ctx=ast_.Load), 'log(__FST_)', pars=ctx.rnd.choice([True, 'auto']), trivia=False)
+            elif kind == 'sub-fail':
+                FST('a = f(b) + c\n', 'exec').sub(M.MName(ctx=ast_.Load), 'pass', coerce=False)
+            elif kind == 'as-ok':
+                FST('a, b', 'Tuple').as_(ctx.rnd.choice(['List', 'Set', 'pattern', '_aliases']), norm=ctx.rnd.choice([True, False]))
+            elif kind == 'as-fail':
+                FST('a + b', 'expr').as_(ctx.rnd.choice(['alias', 'arg', 'keyword', 'withitem' if False else 'ExceptHandler']), pars=True)
+            elif kind == 'parse-fail':
+                FST('a b', ctx.rnd.choice(['expr', 'exec', 'pattern', 'arguments']))
+            elif kind == 'put-fail':
+                FST('x = [a, b]\n', 'exec').body[0].value.elts[0].replace('pass', norm=True, trivia='all', pars=False)
+            elif kind == 'docstr':
+                FST('def f():\n    pass\n', 'exec').body[0].put_docstr('text', docstr='strict')
+            else:
+                list(FST('a = f(b) + c\n', 'exec').search(M.MName))
+        except Exception as e:
+            out = 'raised'
+        after, pa = freeze(FST.get_options()), probe(FST)
+        ctx.count('api_isolation_checks')
+        ctx.count('per_call_isolation_checks')
+        ctx.evaluations += 1
+        ctx.cell('api', kind, out, 'ambient' if amb else 'defaults')
+        case = {'part': 'api', 'kind': kind, 'ambient': {k: repr(v) for k, v in amb.items()}}
+        if after != before:
+            ctx.violation(f'api-call-changed-thread-defaults:{kind.split("-")[0]}:{out}', f'{kind} {out} under ambient {amb}: defaults changed {dict(set(after) - set(before))}', case)
+        elif pa != pb:
+            ctx.violation(f'api-call-changed-default-driven-behaviour:{kind.split("-")[0]}:{out}', f'{kind} {out} under ambient {amb}: probe before {pb} after {pa}', case)
+        FST.set_options(**defaults)
+
+
 # ----------------------------------------------------------------------------------------------------------------------
 # (iv) threads
 
 SCRIPT_SRC = 'x = [a, (b), c * (d + e)]\nif x:\n    y = 1  # c\nelse:\n    z = 2\ndef f(p, q=1):\n    """doc"""\n    return p + q\n'
+
+
+SCRIPT_SRC3 = 'call(*not a, b, *c or d, k=v)\nclass K(*not a, m=b): pass\nr = (w := 1), [(v := 2)]\n# lead\ns = 1  # trail\n\n# post\nt = [\n    i,  # ci\n    j,\n]\n'
 
 
 def script(FST, seed, out, nsteps, log):
@@ -230,14 +307,16 @@ def script(FST, seed, out, nsteps, log):
     r = random.Random(seed)
     start = freeze(FST.get_options())
     tr = [('start', start)]
-    FST.set_options(pars=r.choice([True, 'auto']), pep8space=r.choice([True, 1, False]), trivia=r.choice([True, False, 'all']), norm=r.choice([False, True]))
-    trees = [FST(SCRIPT_SRC, 'exec'), FST('q = {k: v, **w}\nwhile q:\n    q.pop()\n', 'exec')]
+    FST.set_options(pars=r.choice([True, 'auto', False]), pep8space=r.choice([True, 1, False]), trivia=r.choice([True, False, 'all', 'block']), norm=r.choice([False, True]),
+                    pars_arglike=r.choice([True, False, None]), pars_walrus=r.choice([True, False, None]), norm_get=r.choice([True, False]), docstr=r.choice([True, False, 'strict']))
+    trees = [FST(SCRIPT_SRC, 'exec'), FST('q = {k: v, **w}\nwhile q:\n    q.pop()\n', 'exec'), FST(SCRIPT_SRC3, 'exec')]
     for i in range(nsteps):
-        f = trees[i % 2]
+        f = trees[i % 3]
         try:
-            with FST.options(elif_=r.choice([True, False]), docstr=r.choice([True, 'strict'])):
+            res = None
+            with FST.options(elif_=r.choice([True, False]), raw=False):
                 k = r.randrange(7)
-                if i % 2 == 0:
+                if i % 3 == 0:
                     lst = f.body[0].value
                     if k == 0:
                         lst.elts[r.randrange(len(lst.elts))].replace(r.choice(['n1', '(n2)', 'p + q', '[r, s]', 'lambda: 0']))
@@ -253,7 +332,7 @@ def script(FST, seed, out, nsteps, log):
                         f.body[-1].remove(trivia=r.choice([True, False]))
                     else:
                         f.body[1].orelse.append('zz = 3') if f.body[1].is_If else None
-                else:
+                elif i % 3 == 1:
                     d = f.body[0].value
                     if k < 3:
                         d.put_slice('{n: m}', 0, 0, '_all')
@@ -261,7 +340,23 @@ def script(FST, seed, out, nsteps, log):
                         d.put_slice(None, 0, 1, '_all')
                     else:
                         f.body[1].body.append(r.choice(['q.clear()', 'pass']))
-            tr.append(('ok', hash(f.src), freeze(FST.get_options())))
+                else:  # results that depend on the thread's DEFAULT options only (nothing passed per call)
+                    call = f.body[0].value
+                    if k == 0:
+                        res = call.get_slice(0, 2, 'args').src
+                    elif k == 1:
+                        res = f.body[1].get_slice(0, 1, 'bases').src
+                    elif k == 2:
+                        res = f.body[2].value.elts[0].copy().src + '|' + f.body[2].value.elts[1].elts[0].copy().src
+                    elif k == 3:
+                        res = f.body[3].copy().src
+                    elif k == 4:
+                        res = f.body[4].value.get_slice(0, 1).src
+                    elif k == 5:
+                        call.put_slice('*not z, y', 1, 2, 'args')
+                    else:
+                        res = f.body[0].copy().value.args[0].copy().src
+            tr.append(('ok', hash(f.src), res, freeze(FST.get_options())))
         except Exception as e:
             tr.append(('exc', type(e).__name__, str(e)[:40], freeze(FST.get_options())))
     tr.append(('final', tuple(t.src for t in trees)))
@@ -305,7 +400,8 @@ def run_threads(ctx, FST, rounds):
         mon.set_local_events(TOOL, c, mon.events.LINE)
     old_si = sys.getswitchinterval()
     sys.setswitchinterval(1e-6)
-    defaults = freeze(FST.get_options())
+    defaults_dict = FST.get_options()
+    defaults = freeze(defaults_dict)
     try:
         for rd in range(rounds):
             if ctx.out_of_time():
@@ -323,18 +419,28 @@ def run_threads(ctx, FST, rounds):
                 t.start()
                 t.join()
                 alone[s] = o[0] if o else None
+            # the same scripts in the MAIN thread (whose thread-local is the one that existed at import time)
+            alone_main = {}
+            for s in seeds:
+                o = []
+                saved = FST.get_options()
+                try:
+                    script(FST, s, o, nsteps, None)
+                finally:
+                    FST.set_options(**saved)
+                alone_main[s] = o[0] if o else None
             for c in codes:
                 mon.set_local_events(TOOL, c, mon.events.LINE)
             outs = {s: [] for s in seeds}
             ths = [threading.Thread(target=script, args=(FST, s, outs[s], nsteps, log)) for s in seeds]
             log.clear()
             # the main thread changes ITS defaults meanwhile: must not leak into workers
-            FST.set_options(pars=False, trivia='all+3')
+            FST.set_options(pars=False, trivia='all+3', pars_arglike=False, pars_walrus=False, norm=True, norm_get=False, docstr=False)
             for t in ths:
                 t.start()
             for t in ths:
                 t.join(timeout=120)
-            FST.set_options(pars='auto', trivia=True)
+            FST.set_options(**dict(defaults_dict))
             stuck = [t for t in ths if t.is_alive()]
             if stuck:
                 ctx.notes.append('INCONCLUSIVE: thread script did not finish within 120 s')
@@ -363,6 +469,10 @@ def run_threads(ctx, FST, rounds):
                     continue
                 if c_[0][1] != defaults:
                     ctx.violation('new-thread-does-not-start-from-module-defaults', f'K={K}: a fresh thread started with options {dict(set(c_[0][1]) - set(defaults))} differing from the module defaults', case)
+                m_ = alone_main[s]
+                if m_ is not None and a != m_:
+                    i = next((i for i, (x, y) in enumerate(zip(a, m_)) if x != y), min(len(a), len(m_)))
+                    ctx.violation('worker-thread-transcript-differs-from-main-thread', f'K={K} nsteps={nsteps} script seed {s}: step {i} in a worker thread={str(a[i])[:200]} in the main thread={str(m_[i])[:200]}', case)
                 if a != c_:
                     i = next((i for i, (x, y) in enumerate(zip(a, c_)) if x != y), min(len(a), len(c_)))
                     ctx.violation('concurrent-transcript-differs-from-alone', f'K={K} nsteps={nsteps} script seed {s}: step {i} alone={str(a[i])[:200]} concurrent={str(c_[i])[:200]}', case)
@@ -389,6 +499,7 @@ def run(ctx):
         run_nesting(ctx, FST, 150 * q)
         run_invalid(ctx, FST, 150 * q)
         run_per_call(ctx, FST, 10 * q)
+        run_api_isolation(ctx, FST, 60 * q)
         run_threads(ctx, FST, 2 * q)
 
 
